@@ -20,6 +20,8 @@ def main():
         if not os.path.isdir(d) or (only and not any(name.startswith(o) for o in only)):
             continue
         meta = json.load(open(os.path.join(d, "meta.json")))
+        if os.environ.get("MAX_ROUND") and int(meta.get("round", 1)) > int(os.environ["MAX_ROUND"]):
+            continue
         if meta.get("obsolete_after"):
             rows.append((name, "-", f"superseded by fix {meta['obsolete_after']} (the edit no longer changes behaviour)", "", "", ""))
             continue
